@@ -14,35 +14,15 @@ theorem conv_iff {sid : StateId} {snap : Snap} {res : List Responder} {v : View}
     have hrep : replay sid snap res = s' := this.2
     rw [hrep]; exact ⟨h1, h2⟩
 
-theorem noOwnHeld_iff {sid : StateId} {res : List Responder} :
-    NoOwnHeld sid res ↔ ∀ r ∈ (popAux [] res).2, r.isOwnExists sid = false := by
-  simp [NoOwnHeld, popResponders]
-
 /-- **popped first, retained afterwards = queue order** (on the snapshot) -/
 theorem flush_false_core (sid : StateId) {snap : Snap} {res : List Responder} (hinv : Snap.Inv snap)
-    (huid : UidsOk sid snap res) (hsafe : FetchSafe res) (hown : NoOwnHeld sid res) :
-    ∃ s1 sF, run sid snap (popAux [] res).1 = some s1 ∧ run sid s1 (popAux [] res).2 = some sF ∧
-      run sid snap res = some sF ∧ UidsOk sid s1 (popAux [] res).2 ∧
-      (∀ x ∈ s1, (∃ y ∈ snap, y.uid = x.uid) ∨ x.uid ∈ existsUids (popAux [] res).1) := by
-  have hsubP := popAux_fst_sublist [] res
-  have hsubR := popAux_snd_sublist [] res
-  obtain ⟨s1, hs1, hu1⟩ := run_uidsOk hinv (huid.sublist hsubP)
+    (huid : UidsOk sid snap res) :
+    ∃ s1 sF, run sid snap (popAux [] [] res).1 = some s1 ∧ run sid s1 (popAux [] [] res).2 = some sF ∧
+      run sid snap res = some sF ∧ UidsOk sid s1 (popAux [] [] res).2 ∧
+      (∀ x ∈ s1, (∃ y ∈ snap, y.uid = x.uid) ∨ x.uid ∈ existsUids (popAux [] [] res).1) := by
+  obtain ⟨s1, hs1, hu1⟩ := run_uidsOk hinv (huid.sublist (popAux_fst_sublist [] [] res))
   have hinv1 := run_inv hinv hs1
-  -- the retained queue is inside `UidsOk` on the new snapshot
-  have hperm := existsUids_popAux_perm [] res
-  have hnd : (existsUids (popAux [] res).1 ++ existsUids (popAux [] res).2).Nodup := by
-    rw [hperm.nodup_iff]
-    exact huid.1.imp (fun h => Nat.ne_of_lt h)
-  have hdisj := (List.nodup_append.mp hnd).2.2
-  have huid1 : UidsOk sid s1 (popAux [] res).2 := by
-    refine ⟨(huid.sublist hsubR).1, ?_, ?_⟩
-    · intro x hx u hu
-      rcases hu1 x hx with ⟨y, hy, hyu⟩ | hin
-      · rw [← hyu]; exact (huid.sublist hsubR).2.1 y hy u hu
-      · exact hdisj _ hin _ hu
-    · intro r hr ho
-      rw [noOwnHeld_iff.mp hown r hr] at ho
-      cases ho
+  have huid1 : UidsOk sid s1 (popAux [] [] res).2 := huid.retained hu1
   obtain ⟨s2, hs2, _⟩ := run_uidsOk hinv1 huid1
   obtain ⟨sF, hsF, _⟩ := run_uidsOk hinv huid
   have hinv2 := run_inv hinv1 hs2
@@ -51,7 +31,7 @@ theorem flush_false_core (sid : StateId) {snap : Snap} {res : List Responder} (h
     apply Snap.ext_look hinv2 hinvF
     intro a
     rw [look_run hinv1 hs2 a, look_run hinv hs1 a, look_run hinv hsF a, ← List.foldl_append]
-    exact (popFacts sid a res hsafe).comm _
+    exact (popFacts sid a res).comm _
   subst heq
   exact ⟨s1, s2, hs1, hs2, hsF, huid1, hu1⟩
 
@@ -69,6 +49,16 @@ theorem flush_result_not_err {p c : Bool} {sid : StateId} {snap s1 : Snap} {res 
   · simp
   · split <;> simp
 
+/-- a `permitExpunge = false` flush keeps `UidsAsc` (snapshot it leaves, queue it retains) -/
+theorem flush_false_uidsAsc {sid : StateId} {snap : Snap} {res : List Responder} (hinv : Snap.Inv snap)
+    (h : UidsAsc snap res) :
+    UidsAsc (flush false false sid snap res).snap (flush false false sid snap res).rem := by
+  obtain ⟨s1, sF, hs1, _, _, _, hu1⟩ := flush_false_core sid hinv (h.uidsOk (sid := sid))
+  have hpop : popResponders false res = popAux [] [] res := by simp [popResponders]
+  have hrun : run sid snap (popResponders false res).1 = some s1 := by rw [hpop]; exact hs1
+  rw [flush_snap_run (c := false) hrun, flush_rem, hpop]
+  exact h.retained hu1
+
 /-- **every committed change is reflected once delivered** -/
 theorem conv_change {sid : StateId} {snap : Snap} {res : List Responder} {v : View}
     (h : Conv sid snap res v) (hwf : v.Wf) {c : Change} {r : Responder} (hadm : c.AdmissibleV v)
@@ -84,13 +74,13 @@ structure HistInv (sid : StateId) (st : Sess) (mb : Mbox) : Prop where
   inv : Snap.Inv st.snap
   conv : Conv sid st.snap st.res mb.view
   wf : mb.Wf
-  uids : UidsOk sid st.snap st.res
+  uids : UidsAsc st.snap st.res
   snapBelow : ∀ x ∈ st.snap, x.uid < mb.uidNext
   queueBelow : ∀ u ∈ existsUids st.res, u < mb.uidNext
 
 theorem HistInv.init {sid : StateId} {snap : Snap} {mb : Mbox} (h : SameView snap mb.view) (hwf : mb.Wf) :
     HistInv sid { snap, res := [] } mb := by
-  refine ⟨h.inv hwf.view, conv_iff.mpr ⟨snap, rfl, h⟩, hwf, UidsOk.nil sid snap, ?_, by simp [existsUids]⟩
+  refine ⟨h.inv hwf.view, conv_iff.mpr ⟨snap, rfl, h⟩, hwf, ⟨by simp [existsUids], by simp [existsUids]⟩, ?_, by simp [existsUids]⟩
   intro x hx
   have : x.uid ∈ mb.view.uids := by rw [← h.uids_eq]; exact List.mem_map_of_mem hx
   obtain ⟨m, hm, hmu⟩ := List.mem_map.mp this
@@ -103,7 +93,7 @@ theorem HistInv.change {sid : StateId} {st : Sess} {mb : Mbox} (h : HistInv sid 
   simp only [Sess.step, Mbox.step]
   refine ⟨h.inv, conv_change h.conv h.wf.view (Mbox.admissibleV h.wf hadm) hr, Mbox.wf_apply h.wf hadm, ?_,
     fun x hx => Nat.lt_of_lt_of_le (h.snapBelow x hx) hmono, ?_⟩
-  · -- UidsOk for the longer queue
+  · -- UidsAsc for the longer queue
     cases c with
     | add id uid fl =>
       cases r with
@@ -112,7 +102,7 @@ theorem HistInv.change {sid : StateId} {st : Sess} {mb : Mbox} (h : HistInv sid 
         have hle : mb.uidNext ≤ uid' := hadm.1
         have hU : existsUids (st.res ++ [.exists id' uid' fl' t o]) = existsUids st.res ++ [uid'] := by
           rw [existsUids_append, existsUids_cons_exists]; rfl
-        refine ⟨?_, ?_, ?_⟩
+        refine ⟨?_, ?_⟩
         · rw [hU, List.pairwise_append]
           refine ⟨h.uids.1, by simp, ?_⟩
           intro a ha b hb
@@ -122,18 +112,10 @@ theorem HistInv.change {sid : StateId} {st : Sess} {mb : Mbox} (h : HistInv sid 
         · intro x hx u hu
           rw [hU, List.mem_append] at hu
           rcases hu with hu | hu
-          · exact h.uids.2.1 x hx u hu
+          · exact h.uids.2 x hx u hu
           · simp only [List.mem_singleton] at hu
             subst hu
-            have := h.snapBelow x hx
-            omega
-        · intro r hr ho x hx
-          rcases List.mem_append.mp hr with hr | hr
-          · exact h.uids.2.2 r hr ho x hx
-          · simp only [List.mem_singleton] at hr
-            subst hr
-            have := h.snapBelow x hx
-            simp only [Responder.uidOr0]; omega
+            exact Nat.lt_of_lt_of_le (h.snapBelow x hx) hle
       | expunge _ => exact absurd hr (by simp [RespOf])
       | fetch _ _ _ _ _ _ => exact absurd hr (by simp [RespOf])
     | remove id =>
@@ -141,13 +123,7 @@ theorem HistInv.change {sid : StateId} {st : Sess} {mb : Mbox} (h : HistInv sid 
       | expunge id' =>
         have hU : existsUids (st.res ++ [.expunge id']) = existsUids st.res := by
           rw [existsUids_append, existsUids_cons_expunge]; simp [existsUids]
-        refine ⟨by rw [hU]; exact h.uids.1, by rw [hU]; exact h.uids.2.1, ?_⟩
-        intro r hr ho x hx
-        rcases List.mem_append.mp hr with hr | hr
-        · exact h.uids.2.2 r hr ho x hx
-        · simp only [List.mem_singleton] at hr
-          subst hr
-          simp [Responder.isOwnExists] at ho
+        exact ⟨by rw [hU]; exact h.uids.1, by rw [hU]; exact h.uids.2⟩
       | «exists» _ _ _ _ _ => exact absurd hr (by simp [RespOf])
       | fetch _ _ _ _ _ _ => exact absurd hr (by simp [RespOf])
     | setFlags id op fl other =>
@@ -155,13 +131,7 @@ theorem HistInv.change {sid : StateId} {st : Sess} {mb : Mbox} (h : HistInv sid 
       | fetch id' fl' op' a b other' =>
         have hU : existsUids (st.res ++ [.fetch id' fl' op' a b other']) = existsUids st.res := by
           rw [existsUids_append, existsUids_cons_fetch]; simp [existsUids]
-        refine ⟨by rw [hU]; exact h.uids.1, by rw [hU]; exact h.uids.2.1, ?_⟩
-        intro r hr ho x hx
-        rcases List.mem_append.mp hr with hr | hr
-        · exact h.uids.2.2 r hr ho x hx
-        · simp only [List.mem_singleton] at hr
-          subst hr
-          simp [Responder.isOwnExists] at ho
+        exact ⟨by rw [hU]; exact h.uids.1, by rw [hU]; exact h.uids.2⟩
       | «exists» _ _ _ _ _ => exact absurd hr (by simp [RespOf])
       | expunge _ => exact absurd hr (by simp [RespOf])
   · -- the queue's UIDs stay below UIDNext
@@ -200,29 +170,25 @@ theorem HistInv.flush_true {sid : StateId} {st : Sess} {mb : Mbox} (h : HistInv 
   simp only [Sess.step, Mbox.step, hsnap, hrem]
   exact HistInv.init hsv h.wf
 
-theorem HistInv.flush_false {sid : StateId} {st : Sess} {mb : Mbox} (h : HistInv sid st mb)
-    (hsafe : FetchSafe st.res) (hown : NoOwnHeld sid st.res) :
+theorem HistInv.flush_false {sid : StateId} {st : Sess} {mb : Mbox} (h : HistInv sid st mb) :
     HistInv sid (st.step sid (.flush false)) (mb.step (.flush false)) := by
-  obtain ⟨s1, sF, hs1, hsF1, hsF, huid1, hu1⟩ := flush_false_core sid h.inv h.uids hsafe hown
+  obtain ⟨s1, sF, hs1, hsF1, hsF, _, hu1⟩ := flush_false_core sid h.inv (h.uids.uidsOk (sid := sid))
   obtain ⟨s', hs', hsv⟩ := conv_iff.mp h.conv
-  have hpop : popResponders false st.res = popAux [] st.res := by simp [popResponders]
+  have hpop : popResponders false st.res = popAux [] [] st.res := by simp [popResponders]
   have hsnap : (flush false false sid st.snap st.res).snap = s1 := flush_snap_run (by rw [hpop]; exact hs1)
-  have hrem : (flush false false sid st.snap st.res).rem = (popAux [] st.res).2 := by rw [flush_rem, hpop]
+  have hrem : (flush false false sid st.snap st.res).rem = (popAux [] [] st.res).2 := by rw [flush_rem, hpop]
   simp only [Sess.step, Mbox.step, hsnap, hrem]
-  have hsub1 : (existsUids (popAux [] st.res).1).Sublist (existsUids st.res) :=
-    (popAux_fst_sublist [] st.res).filterMap _
-  have hsub2 : (existsUids (popAux [] st.res).2).Sublist (existsUids st.res) :=
-    (popAux_snd_sublist [] st.res).filterMap _
-  refine ⟨run_inv h.inv hs1, conv_iff.mpr ⟨sF, hsF1, ?_⟩, h.wf, huid1, ?_, ?_⟩
+  have heq := existsUids_popAux [] [] st.res
+  refine ⟨run_inv h.inv hs1, conv_iff.mpr ⟨sF, hsF1, ?_⟩, h.wf, h.uids.retained hu1, ?_, ?_⟩
   · rw [hsF] at hs'
     simp only [Option.some.injEq] at hs'
     subst hs'; exact hsv
   · intro x hx
     rcases hu1 x hx with ⟨y, hy, hyu⟩ | hin
     · rw [← hyu]; exact h.snapBelow y hy
-    · exact h.queueBelow _ (hsub1.subset hin)
+    · exact h.queueBelow _ (by rw [← heq]; exact List.mem_append_left _ hin)
   · intro u hu
-    exact h.queueBelow u (hsub2.subset hu)
+    exact h.queueBelow u (by rw [← heq]; exact List.mem_append_right _ hu)
 
 theorem HistInv.rounds {sid : StateId} {st : Sess} {mb : Mbox} (h : HistInv sid st mb) (rounds : List Round)
     (hok : RoundsOk sid st mb rounds) :
@@ -238,7 +204,7 @@ theorem HistInv.rounds {sid : StateId} {st : Sess} {mb : Mbox} (h : HistInv sid 
     | flush p =>
       cases p with
       | true => exact h.flush_true
-      | false => exact h.flush_false h1.1 h1.2
+      | false => exact h.flush_false
 
 instance RoundsOk.dec (sid : StateId) : (st : Sess) → (mb : Mbox) → (rs : List Round) →
     Decidable (RoundsOk sid st mb rs)
@@ -247,8 +213,7 @@ instance RoundsOk.dec (sid : StateId) : (st : Sess) → (mb : Mbox) → (rs : Li
     have : Decidable (RoundsOk sid (st.step sid r) (mb.step r) rs) := RoundsOk.dec sid _ _ rs
     match r with
     | .change c resp => by unfold RoundsOk; exact inferInstance
-    | .flush true => by unfold RoundsOk; exact inferInstance
-    | .flush false => by unfold RoundsOk; exact inferInstance
+    | .flush _ => by unfold RoundsOk; exact inferInstance
 
 theorem runRounds_view (sid : StateId) (st : Sess) (mb : Mbox) (rounds : List Round) :
     (runRounds sid st mb rounds).2.view = mb.view.applyAll (changesOf rounds) := by
